@@ -866,11 +866,52 @@ func init() {
 					return
 				}
 			}
-			if len(b.Preds) != 1 {
-				r.bad(key, fnName(fn), c.pos(call.Pos()), "the dictionary reload is not under a single condition")
+			// the reload may run more often than the key changes (`i == 0 || this != last`:
+			// further disjuncts in front of the comparison), never less: the block is entered
+			// from the comparison and from tests whose other way out leads on to the comparison
+			var p *ssa.BasicBlock
+			for _, cand := range b.Preds {
+				if ifi, ok := cand.Instrs[len(cand.Instrs)-1].(*ssa.If); ok && cand.Succs[0] == b {
+					if bin, ok := ifi.Cond.(*ssa.BinOp); ok && bin.Op == token.NEQ {
+						if _, isPhi := bin.X.(*ssa.Phi); isPhi {
+							p = cand
+						} else if _, isPhi := bin.Y.(*ssa.Phi); isPhi {
+							p = cand
+						}
+					}
+				}
+			}
+			if p == nil && len(b.Preds) == 1 {
+				p = b.Preds[0]
+			}
+			if p == nil {
+				r.bad(key, fnName(fn), c.pos(call.Pos()), "the dictionary reload is not under a comparison of the term's field with the remembered one")
 				return
 			}
-			p := b.Preds[0]
+			for _, q := range b.Preds {
+				if q == p {
+					continue
+				}
+				// a disjunct in front: true -> reload, false -> (further disjuncts ->) the comparison
+				okChain := false
+				if _, isIf := q.Instrs[len(q.Instrs)-1].(*ssa.If); isIf && q.Succs[0] == b {
+					nx := q.Succs[1]
+					for steps := 0; steps < 8; steps++ {
+						if nx == p {
+							okChain = true
+							break
+						}
+						if _, isIf := nx.Instrs[len(nx.Instrs)-1].(*ssa.If); !isIf || nx.Succs[0] != b || len(nx.Instrs) > 4 {
+							break
+						}
+						nx = nx.Succs[1]
+					}
+				}
+				if !okChain {
+					r.bad(key, fnName(fn), c.pos(call.Pos()), "the dictionary reload is not under a single condition")
+					return
+				}
+			}
 			ifi, ok := p.Instrs[len(p.Instrs)-1].(*ssa.If)
 			var bin *ssa.BinOp
 			ok2 := false
@@ -1078,8 +1119,67 @@ func fieldCacheObject(c *Ctx, r *Report, key string, user, h *ssa.Function) {
 	alt2 := "!(." + keyField + "==param:" + asked.Name() + ")"
 	alt3 := "(." + keyField + "!=param:" + asked.Name() + ")"
 	if g != want && g != alt && g != alt2 && g != alt3 {
-		r.bad(key, fnName(h), c.pos(call.Pos()), "the dictionary reload is governed by "+g+", not by the asked field differing from the remembered one")
-		return
+		// more conditions may force a reload (`loaded && asked == remembered` answers from the cache):
+		// without the edge on which the asked field equals the remembered one, no return is
+		// reachable that does not pass the reload
+		var eqFrom, eqTo *ssa.BasicBlock
+		for _, blk := range h.Blocks {
+			ifi, ok := blk.Instrs[len(blk.Instrs)-1].(*ssa.If)
+			if !ok {
+				continue
+			}
+			bo, ok := ifi.Cond.(*ssa.BinOp)
+			if !ok || (bo.Op != token.EQL && bo.Op != token.NEQ) {
+				continue
+			}
+			isKey := func(v ssa.Value) bool {
+				ld, ok := v.(*ssa.UnOp)
+				if !ok || ld.Op != token.MUL {
+					return false
+				}
+				fa, ok := ld.X.(*ssa.FieldAddr)
+				if !ok || fa.X != ssa.Value(recv) {
+					return false
+				}
+				_, f := fieldAddrInfo(fa)
+				return f != nil && f.Name() == keyField
+			}
+			if (bo.X == ssa.Value(asked) && isKey(bo.Y)) || (bo.Y == ssa.Value(asked) && isKey(bo.X)) {
+				eqFrom = blk
+				eqTo = blk.Succs[0]
+				if bo.Op == token.NEQ {
+					eqTo = blk.Succs[1]
+				}
+			}
+		}
+		bypass := eqFrom == nil
+		if eqFrom != nil {
+			seen := map[*ssa.BasicBlock]bool{h.Blocks[0]: true}
+			work := []*ssa.BasicBlock{h.Blocks[0]}
+			for len(work) > 0 {
+				blk := work[len(work)-1]
+				work = work[:len(work)-1]
+				if blk == b {
+					continue
+				}
+				if _, isRet := blk.Instrs[len(blk.Instrs)-1].(*ssa.Return); isRet {
+					bypass = true
+				}
+				for _, sc := range blk.Succs {
+					if blk == eqFrom && sc == eqTo {
+						continue
+					}
+					if !seen[sc] {
+						seen[sc] = true
+						work = append(work, sc)
+					}
+				}
+			}
+		}
+		if bypass {
+			r.bad(key, fnName(h), c.pos(call.Pos()), "the dictionary reload is governed by "+g+", not by the asked field differing from the remembered one")
+			return
+		}
 	}
 	// both stored on every path from the reload to a return that may report success
 	for _, f := range []string{keyField, dictField} {
